@@ -163,7 +163,11 @@ def handleAsm (id : String) (f : List String) (impl : String) : Except String Ve
     let detOf (s : String) : Option (String × Bool) :=
       if s.endsWith ";det=1" then some ((s.dropEnd 6).toString, true)
       else if s.endsWith ";det=0" then some ((s.dropEnd 6).toString, false) else none
-    let some (implCore, det) := detOf impl | throw "unparsable-observation"
+    let some (implCore0, det) := detOf impl | throw "unparsable-observation"
+    let poolOf (s : String) : Option (String × Bool) :=
+      if s.endsWith ";pool=1" then some ((s.dropEnd 7).toString, true)
+      else if s.endsWith ";pool=0" then some ((s.dropEnd 7).toString, false) else none
+    let some (implCore, pool) := poolOf implCore0 | throw "unparsable-observation"
     -- model
     let modelCore : String := match assemble cfg with
       | none => "err=" ++ toHexField (b "the URL is incorrect")
@@ -174,11 +178,13 @@ def handleAsm (id : String) (f : List String) (impl : String) : Except String Ve
                   a.host.any (fun c => !(isAlpha c || isDigit c || c == 46 || c == 45 || c == 58))
       | none => false
     if needsNorm && !k2 then throw "outside-domain: URL that the server normalises" else
-    let outside := (assemble cfg).isSome && !willTimeout && (k2 || !tOK)
-    let modelObs := if outside then impl else modelCore ++ ";det=1"
+    -- an ambiguous template leaves the *property* without an expectation for the path; the model of the code is valid there
+    let outside := (assemble cfg).isSome && !willTimeout && k2
+    let modelObs := if outside then impl else modelCore ++ ";pool=1;det=1"
     -- spec
     let spec : Option String :=
       if !det then some "deterministic-function-of-configuration"
+      else if !pool then some "nothing-leaks-through-pooled-request-response"
       else match assemble cfg with
         | none => if implCore.startsWith "err=" then none else some "invalid-url-is-an-error"
         | some _ =>
@@ -188,10 +194,14 @@ def handleAsm (id : String) (f : List String) (impl : String) : Except String Ve
           else match parseAsmObs implCore with
             | none => some "request-arrives"
             | some o =>
-              match specAsm cfg uri0 urlArgs o with
-              | some cl => if cl.startsWith "path-parameter" && !tOK && !k2 then none else some cl
-              | none => none
-    let known := if k2 && (match spec with | some cl => cl.startsWith "path-parameter" | none => false) then some "K2" else none
+              -- every other clause first: the URL clauses (where K2 lives) hide nothing
+              match specAsmRest cfg urlArgs o with
+              | some cl => some cl
+              | none =>
+                match specAsmURL cfg uri0 o with
+                | some cl => if !tOK && !k2 then none else some cl
+                | none => none
+    let known := if k2 && spec == some "path-parameter-arrives(request-over-client)" then some "K2" else none
     let levels := (if !cfg.client.pathParams.isEmpty && !cfg.request.pathParams.isEmpty then ["both-path-levels"] else []) ++
                   (if !cfg.client.headers.isEmpty && !cfg.request.headers.isEmpty then ["both-header-levels"] else []) ++
                   (if !cfg.client.cookies.isEmpty && !cfg.request.cookies.isEmpty then ["both-cookie-levels"] else [])
@@ -205,12 +215,18 @@ def handleAsm (id : String) (f : List String) (impl : String) : Except String Ve
 
 def nowT : Nat := 1000000
 
+/-- a `W` of the harness moves the clock past the life of the `s` cookies -/
+def waitStep : Nat := 1000
+
 def expOf (s : String) : Option (Option Nat) :=
   match s with
-  | "n" => some none | "p" => some (some (nowT - 3600)) | "f" => some (some (nowT + 3600)) | _ => none
+  | "n" => some none | "p" => some (some (nowT - 3600)) | "f" => some (some (nowT + 3600))
+  | "s" => some (some (nowT + waitStep / 2)) | _ => none
 
 def plainOK (s : Bytes) : Bool := s.all fun c => isAlpha c || isDigit c
-def hostOK (s : Bytes) : Bool := !s.isEmpty && s.all fun c => isAlpha c || isDigit c || c == 46 || c == 58 || c == 45
+def hostOK (s : Bytes) : Bool :=
+  !s.isEmpty && (s.all fun c => isAlpha c || isDigit c || c == 46 || c == 58 || c == 45) &&
+  decide ((s.filter (· == 58)).length ≤ 1)
 def pathOK (s : Bytes) : Bool := s.all fun c => isAlpha c || isDigit c || c == 47
 
 def parseSetCookie (s : String) : Option Cookie :=
@@ -279,34 +295,66 @@ def parseJarObs (op : JarOp) (s : String) : Option JarObs :=
   | .resp .. => if s.startsWith "r=" then (unPart ((s.drop 2).toString)).map .header else none
   | _ => if s.startsWith "g=" then (parseCookieList ((s.drop 2).toString)).map .cookies else none
 
-def specJarStripped (now : Nat) : AbsJar → List JarOp → List JarObs → Option (String × Bool)
-  | _, [], [] => none
-  | j, op :: ops, o :: os =>
-    if o = stripExp (specObs now j op) then specJarStripped now (absStep now j op) ops os
-    else
-      some ((match op with
+/-- the oracle over the whole history: the first failure that is NOT what the reversed path test
+    yields (a violation), and whether some step failed in exactly the K1 way -/
+def specJarAll : AbsJar → List (Nat × JarOp) → List JarObs → Option String × Bool
+  | _, [], [] => (none, false)
+  | j, (now, op) :: ops, o :: os =>
+    let rest := specJarAll (absStep now j op) ops os
+    if o = stripExp (specObs now j op) then rest
+    else if o = stripExp (implObsOf now j op) then (rest.1, true)
+    else (some (match op with
         | .resp .. => "jar-sends-exactly-the-matching-cookies"
-        | _ => "jar-returns-exactly-the-matching-cookies"), o = stripExp (implObsOf now j op))
-  | _, _, _ => some ("observation-count", false)
+        | _ => "jar-returns-exactly-the-matching-cookies"), rest.2)
+  | _, _, _ => (some "observation-count", false)
+
+/-- ops and observations as a timed history: `W` advances the clock, its observation is dropped -/
+def timedOf (t : Nat) : List String → List String → Option (List (Nat × JarOp) × List String)
+  | [], [] => some ([], [])
+  | "W" :: ops, "w" :: os => timedOf (t + waitStep) ops os
+  | op :: ops, o :: os => do
+    if op == "W" then none
+    let x ← parseJarOp op
+    let r ← timedOf t ops os
+    some ((t, x) :: r.1, o :: r.2)
+  | _, _ => none
 
 def handleJar (id opsS impl : String) : Except String Verdict := do
-  let some ops := (if opsS == "-" then some [] else (opsS.splitOn ";").mapM parseJarOp) | throw "outside-domain: jar ops"
-  let modelObs := runJar lifo nowT ops JarState.init
-  let modelS := if ops.isEmpty then "-" else "|".intercalate ((ops.zip modelObs).map fun (op, o) => renderJarObs op o)
+  let opStrs := if opsS == "-" then [] else opsS.splitOn ";"
+  if impl == "slow" then
+    pure { id := id, modelObs := impl, implObs := impl, spec := none, tags := ["jar", "outside-model", "jar-slow"] }
+  else
   let implParts := if impl == "-" then [] else impl.splitOn "|"
+  if implParts.length != opStrs.length then throw "outside-domain: jar ops / observations" else
+  -- the op list alone fixes the times; observations are aligned with it
+  let some (hist, _) := timedOf nowT opStrs (opStrs.map fun o => if o == "W" then "w" else "") | throw "outside-domain: jar ops"
+  let timed := opStrs.any (· == "W")
+  if (opStrs.filter (· == "W")).length > 1 then throw "outside-domain: more than one wait" else
+  let modelObs := runJarT lifo hist JarState.init
+  let rec weave : List String → List JarObs → List (Nat × JarOp) → List String
+    | "W" :: ops, os, h => "w" :: weave ops os h
+    | _ :: ops, o :: os, e :: h => renderJarObs e.2 o :: weave ops os h
+    | _, _, _ => []
+  let modelS := if opStrs.isEmpty then "-" else "|".intercalate (weave opStrs modelObs hist)
   let implObs : Option (List JarObs) :=
-    if implParts.length != ops.length then none else (ops.zip implParts).mapM fun (op, s) => parseJarObs op s
+    match timedOf nowT opStrs implParts with
+    | some (h, os) => (h.zip os).mapM fun (e, s) => parseJarObs e.2 s
+    | none => none
   let (spec, k1) : Option String × Bool := match implObs with
     | none => (some "unparsable-observation", false)
-    | some os => match specJarStripped nowT [] ops os with
-      | none => (none, false)
-      | some (cl, k) => (some cl, k)
+    | some os => specJarAll [] hist os
+  let inRegion := Known.K1 [] hist
+  let known := if spec.isNone && k1 then some "K1" else none
+  let spec := match spec with
+    | some cl => some cl
+    | none => if k1 then some "jar-returns-exactly-the-matching-cookies" else none
   let nontriv := modelObs.any fun o => match o with
     | .cookies (_ :: _) => true
     | .header (_ :: _) => true
     | _ => false
-  pure { id := id, modelObs := modelS, implObs := impl, spec := spec, known := if k1 then some "K1" else none,
-         tags := ["jar"] ++ (if nontriv then ["nt-jar"] else []) ++ (if k1 then ["k1-region"] else []) }
+  pure { id := id, modelObs := modelS, implObs := impl, spec := spec, known := known,
+         tags := ["jar"] ++ (if nontriv then ["nt-jar"] else []) ++ (if k1 then ["k1-seen"] else []) ++
+                 (if inRegion then ["k1-region"] else ["k1-free"]) ++ (if timed then ["nt-jar-timed"] else []) }
 
 /-! ### schedules -/
 
@@ -327,8 +375,10 @@ def handleSched (id actsS impl : String) : Except String Verdict := do
   if !(acts.all fun a => a == "ok" || a == "cb" || a == "ca") || acts.length > 12 then throw "outside-domain: schedule"
   let g := (List.range acts.length).zip acts |>.foldl (fun g (i, a) => run true g (schedFor g i a)) G.init
   let modelParts := (List.range acts.length).map fun i => match (g.reqs i).result with
-    | some (some j) => s!"Rq{j}"
-    | some none => "T"
+    | some (.response (some j)) => s!"Rq{j}"
+    | some (.response none) => "R"
+    | some .timeout => "T"
+    | some .failed => "E"
     | none => "?"
   let modelS := if acts.isEmpty then "-" else "|".intercalate modelParts
   let implParts := if impl == "-" then [] else impl.splitOn "|"
@@ -350,7 +400,7 @@ def handleStress (id : String) (ps : List String) (impl : String) : Except Strin
   let spec := if impl == "bad=0" then none else if impl.startsWith "bad=" then some "response-belongs-to-request" else some "unparsable-observation"
   pure { id := id, modelObs := "bad=0", implObs := impl, spec := spec, tags := ["stress", "nt-stress"] }
 
-def handleCase (f : List String) : Except String Verdict := do
+def handleCase' (f : List String) : Except String Verdict := do
   match f with
   | id :: "asm" :: rest =>
     match rest.reverse with
@@ -360,5 +410,14 @@ def handleCase (f : List String) : Except String Verdict := do
   | [id, "sched", acts, impl] => handleSched id acts impl
   | [id, "stress", a, c, d, e, impl] => handleStress id [a, c, d, e] impl
   | _ => throw s!"outside-domain: unknown case shape ({f.length} fields)"
+
+/-- a panic inside the client code (the harness recovers it) is a failure of whatever was asked for -/
+def handleCase (f : List String) : Except String Verdict :=
+  match f, f.getLast? with
+  | id :: _ :: _, some impl =>
+    if impl.startsWith "panic=" then
+      pure { id := id, modelObs := "no-panic", implObs := impl, spec := some "client-operation-panics", tags := ["panic"] }
+    else handleCase' f
+  | _, _ => handleCase' f
 
 def main : IO Unit := run handleCase
